@@ -247,6 +247,19 @@ def order_cases(rng, quick):
         if deg <= (4 if quick else 5):
             maxq.append(rand_irreducible(rng, deg, 5, monic=True))
             if deg >= 2 and k % 2 == 1: maxq.append(rand_irreducible(rng, deg, 4, monic=False))
+    # sparse monic f (trinomials and quadrinomials of degree 4..8): the remainder sequence of (f, f') has degree drops >= 2, the
+    # branch of the sub-resultant recurrence that dense random polynomials never take; disc(power basis) = disc(f), sublattice rule
+    for n in range(4, 9 if quick else 11):
+        for _ in range(3 if quick else 10):
+            f = [0] * (n + 1); f[n] = 1
+            f[0] = rng.choice([1, -1, 2, -3, 5, 7]); f[rng.randrange(1, n - 1)] = rng.choice([1, -1, 2, -2, 3, -5])
+            if rng.random() < 0.4: f[rng.randrange(1, n - 1)] = rng.choice([1, -1, 3, 4])
+            P = power_basis(f)
+            out.append(disc_case([Id('sgnew'), f], f, o_disc(P, f, power_monic=True), True, 'disc:equation-sparse'))
+            out.append(disc_case([Id('triv'), f], f, o_disc([[F(int(i == j)) for j in range(n)] for i in range(n)], f), True, 'disc:trivial-sparse'))
+            if n <= 6:
+                S = rand_with_det(rng, n, rng.choice([2, 3]))
+                out.append(disc_case(B_(mm(S, P)), f, o_disc(mm(S, P), f), True, 'disc:sublattice-sparse'))
     ans = impl_query([line('max_order_basis', f) for f in maxq])
     for f, a in zip(maxq, ans):
         if a.kind != 'ok': continue
